@@ -210,17 +210,23 @@ func Generate(r *sim.Rng, prop, tier string, idx int) *sim.Case {
 	case "C11":
 		mode = sim.Pick(r, "seq", "seq", "conc")
 	}
+	if prop == "C11" && mode == "seq" && r.Chance(1, 5) {
+		mode = "seqp" // delete callbacks that panic inside Remove/Clear, recovered by the caller
+	}
 	c.Mode = mode
 	keys := []string{"a", "b", "c", "d", "e", "f"}
 	if mode == "conc" {
 		genConc(r, c, keys)
 		return c
 	}
-	capa := sim.Pick(r, 1, 2, 3, 4, 64)
+	capa := int64(sim.Pick(r, 1, 2, 3, 4, 64))
 	if prop == "C11" {
-		capa = 1 + r.Intn(8)
+		capa = int64(1 + r.Intn(8))
 	}
-	c.Knobs["capacity"] = int64(capa)
+	if r.Chance(1, 10) {
+		capa = hugeCapacity(r)
+	}
+	c.Knobs["capacity"] = capa
 	c.Knobs["flavor"] = int64(r.Intn(3))
 	nk := 2 + r.Intn(5)
 	keys = keys[:nk]
@@ -255,6 +261,14 @@ func Generate(r *sim.Rng, prop, tier string, idx int) *sim.Case {
 		}
 	}
 	c.Tasks = []sim.Task{task}
+	if mode == "seqp" {
+		// which invocations of the delete callback from inside Remove/Clear panic
+		for ord := 1; ord <= 3*n/4+2 && ord < 400; ord++ {
+			if r.Chance(1, 4) {
+				c.Faults = append(c.Faults, sim.Fault{Seam: "ondelete", Kind: "panic", Ord: int64(ord)})
+			}
+		}
+	}
 	// loader plan
 	for _, k := range keys {
 		for att := 1; att <= 6; att++ {
@@ -262,15 +276,24 @@ func Generate(r *sim.Rng, prop, tier string, idx int) *sim.Case {
 				c.Faults = append(c.Faults, sim.Fault{Seam: "loader", Kind: "fail", Node: k, Ord: int64(att)})
 			}
 			if c.Knobs["flavor"] == 2 && r.Chance(1, 2) {
-				c.Faults = append(c.Faults, sim.Fault{Seam: "loader", Kind: "ttl", Node: k, Ord: int64(att), D: int64(sim.Pick(r, 10*time.Millisecond, 100*time.Millisecond, time.Second, -time.Millisecond))})
+				c.Faults = append(c.Faults, sim.Fault{Seam: "loader", Kind: "ttl", Node: k, Ord: int64(att), D: int64(sim.Pick(r, 10*time.Millisecond, 100*time.Millisecond, time.Second, -time.Millisecond, time.Duration(TTLYear2500), time.Duration(TTLYear9999), time.Duration(TTLZeroTime), 290*365*24*time.Hour))})
 			}
 		}
 	}
 	return c
 }
 
+// hugeCapacity: "and larger" - capacities nothing ever reaches, chosen around
+// the powers of two where a narrower integer type would wrap.
+func hugeCapacity(r *sim.Rng) int64 {
+	return sim.Pick(r, int64(1)<<31-1, int64(1)<<31, int64(1)<<31+1, int64(1)<<32, int64(1)<<32+1, int64(1)<<32+2, int64(1)<<40+1, int64(^uint64(0)>>1))
+}
+
 func genConc(r *sim.Rng, c *sim.Case, keys []string) {
 	c.Knobs["capacity"] = int64(1 + r.Intn(3))
+	if r.Chance(1, 12) {
+		c.Knobs["capacity"] = hugeCapacity(r)
+	}
 	c.Knobs["flavor"] = int64(r.Intn(2))
 	if r.Chance(1, 6) {
 		// ExpirableCache under concurrency: its GetOrCreate is three cache calls, so
